@@ -16,6 +16,7 @@ import DfolsVerif.Gen.ExitSites
 import DfolsVerif.Proofs.RestartGuards
 import DfolsVerif.Proofs.MainLoopPaths
 import DfolsVerif.Proofs.SolveMainCalls
+import DfolsVerif.Proofs.SolveMainPaths
 
 namespace Dfols
 namespace C10
@@ -241,6 +242,24 @@ theorem C10_src_exit_object_on_break {tr : List String} {e : Skel.Ending} (hx : 
 theorem C10_src_nruns_returned :
     Gen.solveMainReturns.map (fun r => (r.drop 7).take 1) = [["nruns_so_far + 1"], ["nruns_so_far + 1"], ["nruns_so_far"]] :=
   SolveMainCalls.nruns_returned
+
+/-- **`nruns` over a whole run of `solve_main`, any number of iterations**: the skeleton of the WHOLE function (prelude, main loop
+    as a loop, final statements — translated from solver.py on every run) is executed in every possible way — every outcome of every
+    test, any number of main-loop iterations and soft restarts; on every execution Python can take (`while True:` is left by `break`
+    only) that ends by `return`, the run counter handed back is `nruns_so_far` + 1 + the number of soft restarts PERFORMED (monitor
+    `SolveMainPaths.mN`: `d = 3` means increments − performed restarts = 1); nothing else writes the counter, and the function is
+    left by `return` or `raise` only.  With `C02_src_counters_threaded` (how `solve` threads the counter through hard restarts):
+    `soln.nruns` is one more than the number of restarts performed. -/
+theorem C10_src_nruns_whole_run {tr : List String} {e : SkelL.Ending} (hx : SkelL.Exec Gen.solveMainBody tr e) :
+    (SolveMainPaths.mN.run SolveMainPaths.q0 tr).infeasible = true ∨
+    (e = .ret ∧ (SolveMainPaths.mN.run SolveMainPaths.q0 tr).d = 3) ∨
+    (e = .raise ∧ 1 ≤ (SolveMainPaths.mN.run SolveMainPaths.q0 tr).d ∧ (SolveMainPaths.mN.run SolveMainPaths.q0 tr).d ≤ 3) :=
+  SolveMainPaths.whole_run hx
+
+/-- non-vacuity: the fixed points of the loops were reached (`wf`), and feasible returning paths exist -/
+example : SkelL.wf SolveMainPaths.mN Gen.solveMainBody SolveMainPaths.q0 = true ∧
+    (⟨3, false, false, false⟩, SkelL.Ending.ret) ∈ SkelL.reach SolveMainPaths.mN Gen.solveMainBody SolveMainPaths.q0 ∧
+    SkelL.size Gen.solveMainBody > 600 := by decide +kernel
 
 end C10
 end Dfols
